@@ -357,7 +357,18 @@ def slots_rule(chk, ctx):
             if isinstance(disk_decl, str):
                 okd = True if (isinstance(d_, _ast.Name) and d_.id == disk_decl) else (False if isinstance(d_, (_ast.Name, _ast.Constant)) else None)
             else:
-                okd = True if (isinstance(d_, _ast.Constant) and d_.value == disk_decl) else (False if isinstance(d_, (_ast.Name, _ast.Constant)) else None)
+                from ..interp import module_number
+                params_ = {a.arg for a in init.args.args}
+                if isinstance(d_, _ast.Constant) and d_.value == disk_decl:
+                    okd = True
+                elif disk_decl is None and isinstance(d_, _ast.Name) and d_.id not in params_ and module_number(d_.id) == "inf":
+                    okd = True      # "no bound", spelled as an infinite count
+                elif isinstance(d_, _ast.Name) and d_.id in params_:
+                    okd = False     # another of the constructor's own parameters is recorded as the disk budget
+                elif isinstance(d_, _ast.Constant):
+                    okd = False
+                else:
+                    okd = None
             chk.decide("C03.SLOTS", base + "#declared", True if (okr and okd) else (False if (okr is False or okd is False) else None),
                        f"base class records ({_ast.unparse(r_)}, {_ast.unparse(d_)}) as (RAM, DISK) unit counts; declared "
                        f"(snapshots_in_ram, {disk_decl})", rel=rel, node=sup[0], nontrivial=False)
